@@ -59,9 +59,9 @@ class ArrayChunk(Chunk):
         values = []
         for x in range(self.length):
             y = fn(x)
-            if self.min_value:
+            if self.min_value is not None:
                 y = max(y, self.min_value)
-            if self.max_value:
+            if self.max_value is not None:
                 y = min(y, self.max_value)
             values.append(y)
         self.values = values
